@@ -230,6 +230,77 @@ def _cpu_branch(body):
     return 0, f"{text} @ {addr:#x}: branch facts agree with execution natively"
 
 
+def _cpu_hist(body):
+    """C07: the two runs of the history harness replayed natively: fresh emulator vs emulator that
+    first executed the history instruction, same architectural inputs, TEMP registers from the model."""
+    from binja_test_mocks import binja_api  # noqa: F401
+    from sc62015.pysc62015 import emulator as EMU
+    from contracts import cpu as CPU
+    unit, model = body["unit"], body["model"]
+    if model is None or "hist" not in unit:
+        return 4, "no concrete input"
+    RN = EMU.RegisterName
+    addr = 0x1000
+    cells = {int(k): v for k, v in (model.get("@cells") or {}).items()}
+    code = ([unit["pre"]] if unit.get("pre") is not None else []) + [unit["opcode"]]
+    for i, b in enumerate(code):
+        cells[addr + i] = b
+    regs = {r: model.get(r, 0) for r in ("BA", "I", "X", "Y", "U", "S", "F")}
+    if unit.get("block_n") is not None:
+        regs["I"] = unit["block_n"]
+
+    def load(e, tag):
+        for r, v in regs.items():
+            e.regs.set(RN[r], v)
+        e.regs.set(RN.PC, model.get("PC0", 0))
+        for i in range(EMU.NUM_TEMP_REGISTERS):
+            e.regs._values[RN[f"TEMP{i}"]] = model.get(f"{tag}TEMP{i}", 0)
+        e.state.halted = False
+
+    def run(e):
+        try:
+            ev = e.execute_instruction(addr)
+            return ("ok", ev.instruction.name(), ev.instruction.length())
+        except Exception as ex:  # noqa: BLE001
+            return ("exception", type(ex).__name__)
+
+    ma = dict(cells)
+    ea = EMU.Emulator(EMU.Memory(lambda a: ma.get(a, 0), lambda a, v: ma.__setitem__(a, v & 0xFF)), reset_on_init=False)
+    load(ea, "a")
+    ra = run(ea)
+    desc, hbytes, haddr = CPU.HISTORY[unit["hist"]]
+    haddr = addr if haddr is None else haddr
+    hb = hbytes if hbytes is not None else code + [0] * 6
+    hm = {}
+    for i in range(16):
+        hm[haddr + i] = hb[i] if i < len(hb) else 0
+    cur = {"m": hm, "default": 0x11}
+    eb = EMU.Emulator(EMU.Memory(lambda a: cur["m"].get(a, cur["default"]), lambda a, v: cur["m"].__setitem__(a, v & 0xFF)), reset_on_init=False)
+    for r, v in (("BA", 0x1234), ("I", 2), ("X", 0x20010), ("Y", 0x20020), ("U", 0x30000), ("S", 0x40000), ("F", 1)):
+        eb.regs.set(RN[r], v)
+    try:
+        eb.execute_instruction(haddr)
+    except Exception:  # noqa: BLE001
+        pass
+    mb = dict(cells)
+    cur["m"], cur["default"] = mb, 0
+    load(eb, "b")
+    rb = run(eb)
+    probs = []
+    if ra != rb:
+        probs.append(f"outcome {ra} vs {rb}")
+    for r in ("BA", "I", "X", "Y", "U", "S", "F", "PC"):
+        if ea.regs.get(RN[r]) != eb.regs.get(RN[r]):
+            probs.append(f"{r}: fresh {ea.regs.get(RN[r]):#x}, after history {eb.regs.get(RN[r]):#x}")
+    if {a: v for a, v in ma.items() if v} != {a: v for a, v in mb.items() if v}:
+        probs.append("memory images differ")
+    if ea.state.halted != eb.state.halted:
+        probs.append("halted differs")
+    if probs:
+        return 1, f"opcode {unit['opcode']:#x} after history '{desc}': " + "; ".join(probs)
+    return 0, "both runs agree natively"
+
+
 HANDLERS = {}
 
 
@@ -241,7 +312,8 @@ def handler(*props):
     return deco
 
 
-handler("C03", "C04", "C07")(_cpu)
+handler("C03", "C04")(_cpu)
+handler("C07")(_cpu_hist)
 handler("C08")(_regs)
 handler("C05")(_cpu_branch)
 
